@@ -43,9 +43,9 @@ STATE_PREDS = set().union(*[PREDS[p] for p in ("C01", "C02", "C03", "C04", "C05"
 OWN_EVENTS = {"C11": {"Sync", "Restart"}, "C13": {"Reconfigure"}}
 
 DESIGN = {  # property -> (module, quick cfg, thorough cfg, description)
-    "C01": ("MC_TopologyAware", "MC_TopologyAware.cfg", "MC_TopologyAware.cfg", "TopologyAware on T1 (root + 2 NUMA pools, reserved + isolated CPU), 3 containers x 9 classes"),
-    "C03": ("MC_TopologyAware", "MC_TopologyAware.cfg", "MC_TopologyAware.cfg", "TopologyAware on T1 (root + 2 NUMA pools, reserved + isolated CPU), 3 containers x 9 classes"),
-    "C09": ("MC_TopologyAware", "MC_TopologyAware.cfg", "MC_TopologyAware.cfg", "TopologyAware on T1: Inv_Quiescent over every allocate/release interleaving (balloons: Balloons.tla Inv_Quiescent in C02's run)"),
+    "C01": ("MC_TopologyAware", "MC_TopologyAware_quick.cfg", "MC_TopologyAware.cfg", "TopologyAware on T1 (root + 2 NUMA pools, reserved + isolated CPU), 3 containers x 6 (quick) / 9 classes; allocate, release, update (release + re-allocate, may fail)"),
+    "C03": ("MC_TopologyAware", "MC_TopologyAware_quick.cfg", "MC_TopologyAware.cfg", "TopologyAware on T1 (root + 2 NUMA pools, reserved + isolated CPU), 3 containers x 6 (quick) / 9 classes; allocate, release, update (release + re-allocate, may fail)"),
+    "C09": ("MC_TopologyAware", "MC_TopologyAware_quick.cfg", "MC_TopologyAware.cfg", "TopologyAware on T1: Inv_Quiescent over every allocate/release interleaving (balloons: Balloons.tla Inv_Quiescent in C02's run)"),
     "C02": ("MC_Balloons", "MC_Balloons_quick.cfg", "MC_Balloons.cfg", "Balloons on 6 CPUs in 2 packages, 3 balloon types (dynamic/package-sharing, capped preferNew-like/system-sharing, pre-created), 2 (quick) or 3 (thorough) containers x 3 request sizes"),
     "C05": ("MC_Pipeline", "MC_Pipeline_quick.cfg", "MC_Pipeline.cfg", "Pipeline: 1-2 pods x 2 containers, nondeterministic policy writes and failures, consistent runtime environment"),
     "C12": ("MC_Pipeline", "MC_Pipeline_events_quick.cfg", "MC_Pipeline_events.cfg", "Pipeline with policy events (cold start completion between requests: its change is pending until a draining request); the opt-out predicates are checked on real traces"),
@@ -68,6 +68,8 @@ DESIGN_EXTRA = {
             ("MC_BalloonsReconf", "MC_BalloonsReconf_readmit_exited.cfg", "Inv_StoppedHoldsNothing"),       # F-C09-1 shape
             ("MC_BalloonsReconf", "MC_BalloonsReconf_reach.cfg", "Goal_BalloonlessAlive")],                 # reachability
     "C13": [("MC_BalloonsReconf", "MC_BalloonsReconf_none.cfg", None)],
+    # F-C05-1 at design level: the strict statement "every live container holds a grant" must be refuted by TLC
+    "C03": [("MC_TopologyAware", "MC_TopologyAware_dropped.cfg", "Inv_LiveHoldsGrantStrict")],
 }
 
 
